@@ -286,6 +286,39 @@ def observe(x, pts, use_fnu=False, lmax=LMAX):
     return {"sh": sh, "t": t}
 
 
+# ------------------------------------------------------------------ TLC output
+
+def prints(res, tag):
+    """PrintT tuples <<"TAG", ...>> of a TLC run, INCLUDING those TLC wrapped over several lines (it wraps at
+    ~80 columns, so a long clause name or history would otherwise be lost)."""
+    from . import tlc
+    out, buf, depth = [], None, 0
+    for line in res.out.splitlines():
+        s = line.strip()
+        if buf is None:
+            if not re.match(r'^<<\s*"%s"' % tag, s):
+                continue
+            buf, depth = "", 0
+        buf += (" " if buf else "") + s
+        bare = re.sub(r'"(?:[^"\\]|\\.)*"', '""', s)
+        depth += bare.count("<<") - bare.count(">>")
+        if depth <= 0:
+            out.append(tlc.parse_tla_value(buf))
+            buf = None
+    if buf is not None:
+        raise tlc.TLCError("unterminated %s tuple in TLC output" % tag)
+    return out
+
+
+def case_fails(results, shards_used):
+    """FAIL clauses per global case index from the shard results of tlc.run_cases (shard i holds cases i, i+S, ...)."""
+    fails = {}
+    for i, res in enumerate(results):
+        for p in prints(res, "FAIL"):
+            fails.setdefault(i + (p[1] - 1) * shards_used, []).append(p[2])
+    return fails
+
+
 # ------------------------------------------------------------------ TLC graph -> walks
 
 _edge = re.compile(r'^(-?\d+) -> (-?\d+) \[label="([^"]*)"')
